@@ -205,6 +205,22 @@ def run_cases(ck: Check, n: int):
             if kind == "emulsion":
                 drops = gen_collection(rng)
                 obj = build_emulsion(drops)
+                if len(obj) >= 2 and len({d.data.dtype for d in obj}) == 1 and len({type(d) for d in obj}) == 1 and rng.random() < 0.4:
+                    # a history on ONE object: the droplets are linked to a common array (get_linked_data), then the list is reordered in
+                    # place; what is written must be the emulsion as it is NOW
+                    try:
+                        obj.get_linked_data()
+                        how = rng.choice(["reverse", "sort", "swap"])
+                        if how == "reverse":
+                            obj.reverse()
+                        elif how == "sort":
+                            obj.sort(key=lambda d: (-d.radius, tuple(d.position)))
+                        else:
+                            obj[0], obj[-1] = obj[-1], obj[0]
+                        drops = list(obj)
+                        ck.count("emulsion.linked_then_reordered")
+                    except Exception:  # noqa: BLE001
+                        drops = list(obj)
                 case = {"kind": kind, "droplets": [str(d) for d in drops][:6], "n": len(drops)}
                 sig = {"kind": kind}
                 ck.case((kind, tuple(drop_token(d) for d in drops)), nontrivial=len(drops) > 0)
